@@ -240,6 +240,30 @@ func c20Exec(op string) string {
 			chk("x2jw.ValuesFromKeyPath(attrs)", mval(v1) == mval(v2))
 			vt, _ := x2jw.ValuesFromTagPath(string(doc), path, true)
 			chk("x2jw.ValuesFromTagPath(attrs)", mval(vt) == mval(v2))
+			{
+				// the same document asked again after the first answer was written over and a decoder
+				// option changed: every call decodes the document as it is now asked
+				want1 := mval(v2)
+				scribble(interface{}(vt))
+				va0, _ := x2jw.ValuesAtTagPath(string(doc), path, true)
+				scribble(interface{}(va0))
+				vt2, _ := x2jw.ValuesFromTagPath(string(doc), path, true)
+				chk("x2jw.ValuesFromTagPath(asked twice)", mval(vt2) == want1)
+				mxj.CoerceKeysToLower(true)
+				mxj.SetAttrPrefix("@")
+				ml, el := mxj.NewMapXml(doc)
+				if el == nil {
+					lp := strings.ToLower(strings.ReplaceAll(path, "-", "@"))
+					w3, _ := ml.ValuesForPath(lp)
+					vt3, _ := x2jw.ValuesFromTagPath(string(doc), lp, true)
+					chk("x2jw.ValuesFromTagPath(asked again under other decoder options)", mval(vt3) == mval(w3))
+					wa3 := x2jw.ValuesAtKeyPath(map[string]interface{}(ml), lp, true)
+					va3, _ := x2jw.ValuesAtTagPath(string(doc), lp, true)
+					chk("x2jw.ValuesAtTagPath(asked again under other decoder options)", mval(va3) == mval(wa3))
+				}
+				mxj.CoerceKeysToLower(false)
+				mxj.SetAttrPrefix("-")
+			}
 			vr, _ := x2jw.ReaderValuesFromTagPath(bytes.NewReader(doc), path, true)
 			chk("x2jw.ReaderValuesFromTagPath(attrs)", mval(vr) == mval(v2))
 			// without: attribute entries excluded at wildcard steps
